@@ -1015,6 +1015,10 @@ func checkIPv6(data string) bool {
 				return false
 			}
 			n := std.Atoi(f, 16)
+			if n < 0 {
+				// std.Atoi reads hexadecimal as two's complement: restore the group value
+				n += 1 << (4 * len(f))
+			}
 			if 65535 < n {
 				panic("fragment overflows uint16: " + f)
 			}
